@@ -126,8 +126,8 @@ def gen_v5_list(ctx, nm, little, addr, kinds, loc, addrs):
     return out, want, raw
 
 
-def _addr_table(ctx, little, addr, fmt64=False):
-    addrs = [ctx.uint('addrtab%d' % i, 8 * addr) for i in range(NADDR)]
+def _addr_table(ctx, little, addr, fmt64=False, nm='addrtab'):
+    addrs = [ctx.uint('%s%d' % (nm, i), 8 * addr) for i in range(NADDR)]
     body = enc.enc_int(5, 2, little) + [addr, 0] + sum([enc.enc_int(a, addr, little) for a in addrs], [])
     sec = (([0xff] * 4 + enc.enc_int(len(body), 8, little)) if fmt64 else enc.enc_int(len(body), 4, little)) + body
     base = len(sec) - NADDR * addr
@@ -350,11 +350,21 @@ def h_enum(ctx):
     little, addr, loc, ver = cfg['little'], cfg['addr'], cfg['loc'], cfg['ver']
     offsz = 4
     # three lists in the section, with a gap; the DIEs reference a subset in arbitrary order, one of them twice
+    two = cfg.get('two_units')      # (references of a second unit): each unit has its own address table; indexed entries of a list
+    #                                 are resolved through the table of the unit that references the list
     if ver >= 5:
         addrsec, abase, addrs = _addr_table(ctx, little, addr)
+        kindsets = [[('offset_pair', 1)], [('start_end', 0)], [('base_address',), ('offset_pair', 0)]]
+        owner_addrs = [addrs] * 3
+        if two is not None:
+            addrsec2, abase2, addrs2 = _addr_table(ctx, little, addr, nm='addrtabB')
+            abase2 += len(addrsec)
+            addrsec = addrsec + addrsec2
+            kindsets = [[('startx_endx', 1)], [('base_addressx',), ('offset_pair', 0)], [('startx_length', 0)]]
+            owner_addrs = [addrs2 if i in two else addrs for i in range(3)]
         ls = []
         for i in range(3):
-            l, want, raw = gen_v5_list(ctx, 'l%d' % i, little, addr, [[('offset_pair', 1)], [('start_end', 0)], [('base_address',), ('offset_pair', 0)]][i], loc, addrs)
+            l, want, raw = gen_v5_list(ctx, 'l%d' % i, little, addr, kindsets[i], loc, owner_addrs[i])
             if cfg.get('views') is not None and i == cfg['views'][0]:
                 l = VIEWS + l
             ls.append((l, want))
@@ -390,7 +400,12 @@ def h_enum(ctx):
         dies = [[(AT['location'], form, enc.enc_int(offs[rv] + len(VIEWS), offsz, little)), (AT['GNU_locviews'], form, enc.enc_int(offs[rv], offsz, little)),
                  (AT['frame_base'], form, enc.enc_int(offs[r2], offsz, little))]] + dies
     cu, ab = _mk_cu(ctx, little, addr, ver, False, [], addr_base=abase, dies=dies)
-    if cfg.get('mixed'):
+    if two is not None:
+        dies2 = [[(use_attr, form, enc.enc_int(offs[r], offsz, little))] for r in two]
+        cu2, ab2 = _mk_cu(ctx, little, addr, ver, False, [], addr_base=abase2, dies=dies2, abbrev_off=len(ab))
+        di, streams = mk_dwarfinfo(ctx, little, addr, debug_info=cu + cu2, debug_abbrev=ab + ab2, **dict(extra, **{secname: sec}))
+        lists = di.location_lists() if loc else di.range_lists()
+    elif cfg.get('mixed'):
         # units of the other generation linked into the same file, with their own list section: their list attributes are
         # offsets into THAT section and must not be taken for lists of the section being enumerated
         ver2 = 4 if ver >= 5 else 5
@@ -408,8 +423,8 @@ def h_enum(ctx):
         lists = di.location_lists() if loc else di.range_lists()
     got = ctx.drain(lists.iter_location_lists() if loc else lists.iter_range_lists())
     ctx.outcome('ok')
-    want_idx = sorted(set(refs) | (set(views) if views is not None else set()))
-    label = 'enum/%s/v%d%s' % ('loc' if loc else 'rng', ver, '/views' if views is not None else '')
+    want_idx = sorted(set(refs) | (set(views) if views is not None else set()) | set(two or ()))
+    label = 'enum/%s/v%d%s%s' % ('loc' if loc else 'rng', ver, '/views' if views is not None else '', '/two-units' if two is not None else '')
     ctx.check_eq(label + '/visited-count', len(got), len(want_idx))
     if len(got) != len(want_idx):
         return
@@ -439,6 +454,9 @@ def h_enum(ctx):
         ctx.check_eq(label + '/list-length', len(g) - nv, len(ls[r][1]))
         if first is not None:
             ctx.check_eq(label + '/first-entry-offset', first.entry_offset, offs[r] + 2 * nv)
+        if ver >= 5:
+            # the whole translated list, entry for entry (indexed addresses through the referencing unit's own table)
+            (_check_loc if loc else _check_rng)(ctx, label + '/list', g[nv:], ls[r][1], offs[r] + (len(VIEWS) if nv else 0))
 
 
 # ------------------------------------------------------------------ H7.6 classification
@@ -564,7 +582,8 @@ HARNESSES = [
     H('h7_5_enum', h_enum, lambda tier: [dict(little=l, addr=a, loc=lo, ver=v, refs=r) for l, a in ENVS[:2] for lo in (True, False) for v in (3, 4, 5)
                                          for r in ([0], [2, 0, 2], [1, 2])] +
                                         [dict(little=l, addr=a, loc=lo, ver=v, refs=[2, 0], mixed=True) for l, a in ENVS[:2] for lo in (True, False) for v in (4, 5)] +
-                                        [dict(little=l, addr=a, loc=True, ver=v, refs=r, views=vw) for l, a in ENVS[:2] for v in (4, 5) for r, vw in (([], (0, 2)), ([1], (2, 0)), ([2], (1, 2)))], expect=('ok',),
+                                        [dict(little=l, addr=a, loc=True, ver=v, refs=r, views=vw) for l, a in ENVS[:2] for v in (4, 5) for r, vw in (([], (0, 2)), ([1], (2, 0)), ([2], (1, 2)))] +
+                                        [dict(little=l, addr=a, loc=lo, ver=5, refs=r, two_units=t) for l, a in ENVS[:2] for lo in (True, False) for r, t in (([2, 0], [1]), ([1], [0, 2]))], expect=('ok',),
       desc='iter_location_lists / iter_range_lists: the visited lists are exactly those referenced by the entries of the unit (shared references once), in ascending offset order, skipping gaps'),
     H('h7_6_classify', h_classify, lambda tier: [dict(ver=v) for v in (2, 3, 4, 5)], expect=('ok',),
       desc='LocationParser.attribute_has_location and the expression/list split for every unambiguous (attribute, form, version) triple of DWARF 2-5 (ground obligations)'),
